@@ -274,7 +274,7 @@ def _thresh(case):
     return 1e-22 if case['kind'] in ('jex', 'jim') else 1e-6
 
 
-def _detectable(case, wrt, env0, J1s, thresh=1e-22):
+def _detectable(case, wrt, env0, J1s, thresh=1e-22, weak_out=None):
     """Rule for colored configurations (see C14): every entry that is nonzero at the judged point must be detectable
     at the point where the sparsity was computed (the first linearization point, inputs/states perturbed by 1e-9)."""
     envp = {}
@@ -288,6 +288,11 @@ def _detectable(case, wrt, env0, J1s, thresh=1e-22):
             envp[n] = v
     Jp = [X.jac(o['ast'], envp, wrt)[1] for o in case['outs']]
     gmax = max([float(np.max(np.abs(J[n]), initial=0.0)) for J in Jp for n in wrt] + [0.0])
+    if weak_out is not None:
+        # entries the sparsity pass cannot tell from structural zeros: they may be reported as exactly 0
+        for k, J in enumerate(Jp):
+            for n in wrt:
+                weak_out[k, n] = np.abs(J[n]) <= thresh * gmax
     for J, J1 in zip(Jp, J1s):
         for n in wrt:
             if np.any((np.abs(J[n]) <= thresh * gmax) & (np.abs(J1[n]) > 0.0)):
@@ -395,8 +400,9 @@ def _check_explicit(case, res, pre, cls, fname):
     wrt = [i['name'] for i in case['ins']]
     refs = [_ref_explicit(case, 0, wrt), _ref_explicit(case, 1, wrt)]
     judge_second = True
+    weak = {}
     if case.get('coloring') and not case.get('matrix_free'):
-        judge_second = _detectable(case, wrt, _env(case, 0), [r[1] for r in refs[1]], _thresh(case))
+        judge_second = _detectable(case, wrt, _env(case, 0), [r[1] for r in refs[1]], _thresh(case), weak_out=weak)
         if not judge_second:
             cls.append('second_point_sparsity_not_detectable')
     try:
@@ -412,7 +418,7 @@ def _check_explicit(case, res, pre, cls, fname):
             tot = p.compute_totals(of=['c.' + o['name'] for o in case['outs']], wrt=['iv.' + n for n in wrt])
             if point == 0 and p.model.c._coloring_info.coloring is not None:
                 cls.append('colored')
-            for o, got, (val, J, Trow, M) in zip(case['outs'], outs, refs[point]):
+            for ko, (o, got, (val, J, Trow, M)) in enumerate(zip(case['outs'], outs, refs[point])):
                 want = tuple(o['shape'])
                 if tuple(got.shape) != want:
                     res.fail(pre + 'output-shape', f"{o['name']}: shape {got.shape} expected {want}")
@@ -432,6 +438,9 @@ def _check_explicit(case, res, pre, cls, fname):
                         continue
                     tol = _tols(case, r, Trow)
                     bad = ~(np.abs(g - r) <= tol)
+                    wk = weak.get((ko, n))
+                    if wk is not None and np.shape(wk) == g.shape:
+                        bad = bad & ~(wk & (g == 0.0))
                     if np.any(bad):
                         a, b = np.argwhere(bad)[0]
                         X.fd_verify(o['ast'], _env(case, point), n, r)
